@@ -210,9 +210,13 @@ def run_editfault(case):
             kinds = ["crash", "eacces", "enospc"]
             if ref_ops[at - 1]["kind"] == "write" or ref_ops[at - 1].get("via") == "oswrite":
                 kinds += ["torn", "torncrash"]        # (for os.write a torn write is a short count, not an error)
-            for kind in kinds:
+            # how much of a torn write reaches the disk: one byte; (thorough) also a few KiB and all but one byte
+            plans = [(kind, 1) for kind in kinds]
+            if case.get("deep_torn"):
+                plans += [(kind, kk) for kind in kinds if kind in ("torn", "torncrash") for kk in (4096, 10 ** 9)]
+            for kind, kk in plans:
                 k += 1
-                plan = {"at": at, "kind": kind, "k": 1}
+                plan = {"at": at, "kind": kind, "k": kk}
                 status, log, out = one(plan)
                 role = _role_fn(out, alias=alias[0])
                 ops = _abstract_ops(log["log"], role, new)
@@ -220,7 +224,7 @@ def run_editfault(case):
                     if o["kind"] in ("write", "dwrite"):
                         o["d"] = "New" if new is not None and o["extra"] == len(new) else "Other"
                 recs.append({"id": rid + k, "op": "editfault", "clauses": case["clauses"], "ops": ops,
-                             "fault": {"at": min(at, len(ops)) if ops else 0, "kind": kind, "k": 1},
+                             "fault": {"at": min(at, len(ops)) if ops else 0, "kind": kind, "k": kk},
                              "status": status, "final": _classify(out, old, new), "encodable": encodable,
                              "entry": entry, "nops_ref": nops, "same": new == old, "init": []})
                 if kind in ("crash", "torncrash") and case.get("followup", True) and not case.get("meta_symlink"):
